@@ -14,6 +14,7 @@ Require Import Cirbo.Generated.GateTypes.
 Require Import Cirbo.Model.Eval Cirbo.Model.Sem.
 Require Import Cirbo.Proofs.RebuildFacts Cirbo.Proofs.EffectRR Cirbo.Proofs.Pipeline Cirbo.Proofs.EffectMD
                Cirbo.Proofs.EffectMU Cirbo.Proofs.TruthTableFacts Cirbo.Proofs.EffectME Cirbo.Proofs.C18Examples.
+Require Import Cirbo.Generated.PassesGen Cirbo.Proofs.PassesGen.
 
 (* ================= A. pipeline algebra ================= *)
 (* dropping an idempotent pass that equals its predecessor never changes the result: applying a list
@@ -222,3 +223,20 @@ Example C18_example_me :
   Ok [("a", [F; F; T; T]); ("b", [F; T; F; T]); ("na", [T; T; F; F]); ("nb", [T; F; T; F]);
       ("g2", [F; F; F; T]); ("o1", [F; F; T; F]); ("o2", [F; T; F; F])].
 Proof. exact c18_eq_facts. Qed.
+
+(* ================= F. the model is the code ================= *)
+(* the pass algorithms are regenerated from minimization/simplification/*.py on every run (translator T15,
+   Generated/PassesGen.v) and equal the model the theorems above are about, for every circuit: stated once as
+   C03_passes_regenerated (Properties/C03.v, same model, same lemma Proofs/PassesGen.passes_regenerated) and
+   re-exported here for the four `_transform`s *)
+Theorem C18_passes_regenerated :
+  (forall allow c, gen_RemoveRedundantGates_transform allow c = remove_redundant_gates allow c) /\
+  (forall c, gen_MergeUnaryOperators_transform c = merge_unary_operators c) /\
+  (forall c, gen_MergeDuplicateGates_transform c = merge_duplicate_gates c) /\
+  (forall c, gen_MergeEquivalentGates_transform c = merge_equivalent_gates c).
+Proof.
+  exact (conj (proj1 passes_regenerated)
+        (conj (proj1 (proj2 passes_regenerated))
+        (conj (proj1 (proj2 (proj2 passes_regenerated)))
+              (proj1 (proj2 (proj2 (proj2 (proj2 (proj2 (proj2 passes_regenerated)))))))))).
+Qed.
